@@ -8,7 +8,8 @@ ORDER = []
 
 
 class Ob(object):
-    def __init__(self, name, fn, props, funcs, kind, timeout_ms, samples, max_paths, note, lemma_for):
+    def __init__(self, name, fn, props, funcs, kind, timeout_ms, samples, max_paths, note, lemma_for, uses=()):
+        self.uses = list(uses)
         self.name = name
         self.fn = fn
         self.props = props
@@ -21,7 +22,8 @@ class Ob(object):
         self.lemma_for = lemma_for
 
 
-def ob(name, funcs=(), props=None, kind="P", timeout_ms=None, samples=8, max_paths=4000, note="", lemma_for=None):
+def ob(name, funcs=(), props=None, kind="P", timeout_ms=None, samples=8, max_paths=4000, note="", lemma_for=None,
+       uses=()):
     """decorator: register an obligation thunk `fn(E)`.
 
     name   Cxx/<Class.method>/<clause>[/<case>]; the property is the first path component unless `props`
@@ -32,7 +34,8 @@ def ob(name, funcs=(), props=None, kind="P", timeout_ms=None, samples=8, max_pat
         p = props or [name.split("/")[0]]
         if name in OBLIGATIONS:
             raise RuntimeError("duplicate obligation %s" % name)
-        OBLIGATIONS[name] = Ob(name, fn, list(p), list(funcs), kind, timeout_ms, samples, max_paths, note, lemma_for)
+        OBLIGATIONS[name] = Ob(name, fn, list(p), list(funcs), kind, timeout_ms, samples, max_paths, note, lemma_for,
+                               uses)
         ORDER.append(name)
         return fn
 
@@ -44,7 +47,7 @@ def family(prefix, cases, **kw):
 
     def deco(fn):
         for case in cases:
-            label = case if isinstance(case, str) else ",".join(str(c) for c in case)
+            label = case if isinstance(case, str) else (",".join(str(c) for c in case) if isinstance(case, (tuple, list)) else str(case))
             ob("%s/%s" % (prefix, label), **kw)(lambda E, _c=case: fn(E, _c))
         return fn
 
